@@ -46,7 +46,7 @@ def set_type(path, store_type, extra=b""):
     w.files[ctl + "/config"] = w.files[ctl + "/config"] + b"[xandikos]\n\ttype = " + store_type.encode() + b"\n" + extra
 
 
-def fresh_world(cal_state=None, ab_state=None, kind="tree", cfg="git"):
+def fresh_world(cal_state=None, ab_state=None, kind="tree", cfg="git", root_store=False):
     """cfg = which metadata back end carries the collection type: "git" ([xandikos] section of the
     repository's git config) or "file" (the versioned .xandikos file)."""
     w = Wm.reset()
@@ -54,6 +54,9 @@ def fresh_world(cal_state=None, ab_state=None, kind="tree", cfg="git"):
     for d in ("/srv", "/srv/other", ROOT, ROOT + "/user", ROOT + "/user/calendars", ROOT + "/user/contacts"):
         w.dirs.add(d)
     w.files["/srv/other/secret"] = b"s"
+    if root_store:
+        # deployment in which the data root is itself a (non-bare) git collection
+        mstore.install_state("tree", ROOT, {"r.ics": b"xr"})
     if cfg == "git":
         mstore.install_state(kind, ROOT + CAL, cal_state or {})
         set_type(ROOT + CAL, "calendar")
